@@ -123,18 +123,32 @@ theorem setSize_zero_wrote (s : St) (q : Nat) (hs : s.ok = true) (hq : OWF (s.h 
 
 /-- mpz_divexact_gcd at object level: the sizes requested (`ABSIZ (a)` for a one-limb divisor, `ABSIZ (a) - ABSIZ (d) + 1` from
     mpz_divexact otherwise) have room for the quotient -/
-theorem mpz_divexact_gcd_wrote (s : St) (q a d : Nat) (hs : s.ok = true) (hq : OWF (s.h q)) (ha : OWF (s.h a))
+theorem MPZ_REALLOC_noop (s : St) (w n : Nat) (h : n ≤ s.ALLOC w) : MPZ_REALLOC s w n = s := by
+  unfold MPZ_REALLOC; rw [if_neg (by omega)]
+
+theorem mpz_divexact_gcd_wrote' (s : St) (q a d : Nat) (hs : s.ok = true) (hq : OWF (s.h q)) (ha : OWF (s.h a))
     (hd : OWF (s.h d)) (hpos : 0 < valOf s d) (hdvd : valOf s d ∣ valOf s a) :
-    Wrote s (mpz_divexact_gcd s q a d) q (valOf s a / valOf s d) := by
+    Wrote s (mpz_divexact_gcd s q a d) q (valOf s a / valOf s d) ∧
+    (s.ABSIZ a ≤ s.ALLOC q → ((mpz_divexact_gcd s q a d).h q).gen = (s.h q).gen) := by
   unfold mpz_divexact_gcd
   by_cases h0 : (s.h a).size = 0
   · simp only [St.SIZ, h0, beq_self_eq_true, if_true]
     rw [valOf_size_zero s a h0, Int.zero_ediv]
-    exact setSize_zero_wrote s q hs hq
+    exact ⟨setSize_zero_wrote s q hs hq, fun _ => by simp⟩
   · have hb : (s.SIZ a == 0) = false := by simpa [St.SIZ] using h0
     simp only [hb, Bool.false_eq_true, if_false]
-    refine (objWrite_wrote s q _ _ hs hq ?_).1
-    refine Nat.le_trans ?_ (Nat.le_max_left _ _)
+    have hdn0 : (s.h d).size ≠ 0 := by
+      intro e; have := valOf_size_zero s d e; omega
+    suffices hfit : (natLimbs (valOf s a / valOf s d).natAbs).length ≤
+        (if (s.SIZ d == 1) = true then s.ABSIZ a else s.ABSIZ a - s.ABSIZ d + 1) by
+      have OW := objWrite_wrote s q _ _ hs hq (Nat.le_trans hfit (Nat.le_max_left _ _))
+      refine ⟨OW.1, fun hroom => ?_⟩
+      rw [OW.2.2, MPZ_REALLOC_noop _ _ _ (by
+        have : 1 ≤ s.ABSIZ d := by simp only [St.ABSIZ]; omega
+        have : 1 ≤ s.ABSIZ a := by simp only [St.ABSIZ]; omega
+        by_cases hc : (s.SIZ d == 1) = true
+        · rw [if_pos hc]; exact hroom
+        · rw [if_neg hc]; omega)]
     obtain ⟨c, hc⟩ := hdvd
     have hz : valOf s a / valOf s d = c := by rw [hc]; exact Int.mul_ediv_cancel_left _ (by omega)
     rw [hz]
@@ -174,6 +188,13 @@ theorem mpz_divexact_gcd_wrote (s : St) (q a d : Nat) (hs : s.ok = true) (hq : O
           have : D ≤ D * Z := Nat.le_mul_of_pos_right _ (Nat.pos_of_ne_zero hZ)
           omega
         rw [this]; exact Nat.pos_of_ne_zero (by have := B_pos; positivity)
+
+/-- mpz_divexact_gcd at object level: the sizes requested (`ABSIZ (a)` for a one-limb divisor, `ABSIZ (a) - ABSIZ (d) + 1` from
+    mpz_divexact otherwise) have room for the quotient -/
+theorem mpz_divexact_gcd_wrote (s : St) (q a d : Nat) (hs : s.ok = true) (hq : OWF (s.h q)) (ha : OWF (s.h a))
+    (hd : OWF (s.h d)) (hpos : 0 < valOf s d) (hdvd : valOf s d ∣ valOf s a) :
+    Wrote s (mpz_divexact_gcd s q a d) q (valOf s a / valOf s d) :=
+  (mpz_divexact_gcd_wrote' s q a d hs hq ha hd hpos hdvd).1
 
 /-! ## the mpz callees that have a size-aware model, as `Wrote` -/
 
@@ -260,9 +281,6 @@ theorem setSize_neg (s : St) (x : Nat) (h : OWF (s.h x)) :
     split_ifs <;> omega
 
 /-! ## TMP variables: blocks that must not be reallocated -/
-
-theorem MPZ_REALLOC_noop (s : St) (w n : Nat) (h : n ≤ s.ALLOC w) : MPZ_REALLOC s w n = s := by
-  unfold MPZ_REALLOC; rw [if_neg (by omega)]
 
 theorem mulTail_gen (s : St) (w : Nat) (up vp : Src) (usize vsize : Nat) (same neg : Bool) (x : Nat) :
     ((mulTail s w up vp usize vsize same neg).h x).gen = (s.h x).gen := by
@@ -362,5 +380,158 @@ theorem size_toNat (s : St) (x : Nat) (h : OWF (s.h x)) (hp : 0 < valOf s x) : (
   have hnn : ¬ (s.h x).size < 0 := by rw [size_neg_iff s x h]; omega
   have hne : (s.h x).size ≠ 0 := by intro e; have := valOf_size_zero s x e; omega
   simp only [St.SIZ]; omega
+
+
+theorem aorsCore_gen (s : St) (w u v : Nat) (usize vsize : Int) (h : usize.natAbs + 1 ≤ s.ALLOC w) (x : Nat) :
+    ((aorsCore false 1 s w u v usize vsize).h x).gen = (s.h x).gen := by
+  unfold aorsCore
+  simp only []
+  rw [MPZ_REALLOC_noop _ _ _ h]
+  simp only [Bool.false_eq_true, if_false]
+  split
+  · split
+    · simp [mpn_sub, MPN_NORMALIZE]
+    · by_cases hc : cmp (s.rd (s.PTR u) usize.natAbs) (s.rd (s.PTR v) usize.natAbs) < 0 <;>
+        simp [hc, mpn_cmp, mpn_sub_n, MPN_NORMALIZE]
+  · simp [mpn_add, St.store]
+
+/-- mpz_add / mpz_sub do not replace the block of w when it has max (usize, vsize) + 1 limbs -/
+theorem zaors_gen_keep (isSub : Bool) (s : St) (w u v : Nat)
+    (h : max (s.SIZ u).natAbs (s.SIZ v).natAbs + 1 ≤ s.ALLOC w) (x : Nat) :
+    ((zaors isSub s w u v).h x).gen = (s.h x).gen := by
+  have hn : ∀ z : Int, (-z).natAbs = z.natAbs := Int.natAbs_neg
+  unfold zaors
+  cases isSub
+  · simp only [Bool.false_eq_true, if_false, mpz_add, aors]
+    split
+    · exact aorsCore_gen _ _ _ _ _ _ (by omega) x
+    · exact aorsCore_gen _ _ _ _ _ _ (by omega) x
+  · simp only [if_true, mpz_sub, aors]
+    split
+    · exact aorsCore_gen _ _ _ _ _ _ (by rw [hn]; omega) x
+    · exact aorsCore_gen _ _ _ _ _ _ (by omega) x
+
+/-- the size field is bounded by any power-of-B bound on the value -/
+theorem absiz_le (s : St) (x : Nat) (h : OWF (s.h x)) (k : Nat) (hk : (valOf s x).natAbs < B ^ k) : (s.h x).size.natAbs ≤ k := by
+  by_cases h0 : (s.h x).size = 0
+  · rw [h0]; simp
+  · have := valOf_ge s x h h0
+    by_contra hc
+    have : B ^ k ≤ B ^ ((s.h x).size.natAbs - 1) := Nat.pow_le_pow_right B_pos (by omega)
+    omega
+
+/-- `MPZ_EQUAL_1_P` decides "the value is 1" and its load is inside the block -/
+theorem equal1_spec (s : St) (z : Nat) (hz : OWF (s.h z)) : equal1 s z = (decide (valOf s z = 1), s) := by
+  by_cases h1 : valOf s z = 1
+  · rw [equal1_one s z hz h1]; simp [h1]
+  · have hd : decide (valOf s z = 1) = false := by simpa using h1
+    rw [hd]
+    unfold equal1
+    by_cases hsz : (s.h z).size = 1
+    · obtain ⟨hb, ha, hfit, hlen, hl, hn⟩ := hz
+      simp only [view, hsz] at hlen ha
+      have hna : Int.natAbs 1 = 1 := rfl
+      rw [hna] at hlen
+      match hm : (s.h z).buf.limbs.take 1, hlen with
+      | [a], _ =>
+        have hv : valOf s z = a := by
+          unfold valOf Mpz.toInt view; simp [hsz, hm, val]
+        have ha1 : a ≠ 1 := by intro e; apply h1; rw [hv, e]; rfl
+        simp only [St.SIZ, hsz, beq_self_eq_true, if_true, St.load, Ptr.add, St.PTR]
+        have e1 : s.rd ⟨z, (s.h z).gen, 0 + 0⟩ 1 = [a] := by simp [St.rd, Buf.read, hm]
+        have e2 : s.rdOk ⟨z, (s.h z).gen, 0 + 0⟩ 1 = true := by
+          simp [St.rdOk, Buf.read, St.live]; simpa using ha
+        rw [e1, e2, chk_true]; simp [ha1]
+    · have : ((s.SIZ z) == 1) = false := by simpa [St.SIZ] using hsz
+      rw [this]; simp
+
+
+theorem objWrite_alloc (s : St) (w req : Nat) (z : Int) :
+    ((objWrite s w req z).h w).buf.alloc = ((MPZ_REALLOC s w req).h w).buf.alloc := by
+  simp [objWrite]
+
+theorem mpz_divexact_gcd_alloc_keep (s : St) (q a d : Nat) (hd0 : (s.h d).size ≠ 0) (hroom : s.ABSIZ a ≤ s.ALLOC q) :
+    ((mpz_divexact_gcd s q a d).h q).buf.alloc = (s.h q).buf.alloc := by
+  unfold mpz_divexact_gcd
+  by_cases h0 : (s.SIZ a == 0) = true
+  · rw [if_pos h0]; simp
+  · rw [if_neg h0]
+    have h0' : (s.h a).size ≠ 0 := by simpa [St.SIZ] using h0
+    rw [objWrite_alloc, MPZ_REALLOC_noop _ _ _ (by
+      have : 1 ≤ s.ABSIZ d := by simp only [St.ABSIZ]; omega
+      have : 1 ≤ s.ABSIZ a := by simp only [St.ABSIZ]; omega
+      by_cases hc : (s.SIZ d == 1) = true
+      · rw [if_pos hc]; exact hroom
+      · rw [if_neg hc]; omega)]
+
+theorem mpz_gcd_alloc_keep (s : St) (g u v : Nat)
+    (h : (natLimbs (Int.gcd (valOf s u) (valOf s v))).length ≤ s.ALLOC g) :
+    ((mpz_gcd s g u v).h g).buf.alloc = (s.h g).buf.alloc := by
+  unfold mpz_gcd
+  rw [objWrite_alloc, MPZ_REALLOC_noop _ _ _ (by simpa using h)]
+
+theorem mulTail_alloc (s : St) (w : Nat) (up vp : Src) (usize vsize : Nat) (same neg : Bool) (x : Nat) :
+    ((mulTail s w up vp usize vsize same neg).h x).buf.alloc = (s.h x).buf.alloc := by
+  unfold mulTail
+  split <;> simp [mpn_mul_S, St.load]
+
+theorem mulGeneric_alloc (s : St) (w u v usize vsize : Nat) (neg : Bool) (h : usize + vsize ≤ s.ALLOC w) (x : Nat) :
+    ((mulGeneric true s w u v usize vsize neg).h x).buf.alloc = (s.h x).buf.alloc := by
+  unfold mulGeneric
+  simp only []
+  rw [if_neg (by omega)]
+  split
+  · rw [mulTail_alloc]; simp [tmp_copy]
+  · split
+    · rw [mulTail_alloc]; simp [tmp_copy]
+    · rw [mulTail_alloc]
+
+theorem mpz_mul_alloc_keep (s : St) (w u v : Nat) (h : (s.SIZ u).natAbs + (s.SIZ v).natAbs ≤ s.ALLOC w) (x : Nat) :
+    ((mpz_mul s w u v).h x).buf.alloc = (s.h x).buf.alloc := by
+  unfold mpz_mul mul
+  simp only []
+  split
+  · simp
+  · split
+    · rename_i h1
+      have h1' : (s.SIZ v).natAbs = 1 := by simpa using h1
+      rw [MPZ_REALLOC_noop _ _ _ (by omega)]
+      simp [mpn_mul_1, St.load, St.store]
+    · split
+      · rw [MPZ_REALLOC_noop _ _ _ (by omega)]
+        split <;> simp [mpn_mul, St.load]
+      · split
+        · exact mulGeneric_alloc _ _ _ _ _ _ _ (by omega) x
+        · exact mulGeneric_alloc _ _ _ _ _ _ _ (by omega) x
+
+theorem gcd_len_le (a b : Int) (k : Nat) (hb : 0 < b) (hk : b.natAbs < B ^ k) : (natLimbs (Int.gcd a b)).length ≤ k := by
+  apply natLimbs_len_le
+  have : Int.gcd a b ≤ b.natAbs := Nat.le_of_dvd (by omega) (Int.gcd_dvd_natAbs_right a b)
+  omega
+
+
+theorem natAbs_div_le (a g : Int) (hg : 0 < g) (hd : g ∣ a) : (a / g).natAbs ≤ a.natAbs := by
+  obtain ⟨c, hc⟩ := hd
+  rw [hc, Int.mul_ediv_cancel_left _ (by omega), Int.natAbs_mul]
+  exact Nat.le_mul_of_pos_left _ (by omega)
+
+theorem size_ne_zero_of_pos (s : St) (x : Nat) (h : 0 < valOf s x) : (s.h x).size ≠ 0 := by
+  intro e; have := valOf_size_zero s x e; omega
+
+macro "dq" : tactic => `(tactic| first | assumption | (apply Ne.symm; assumption))
+
+
+theorem top_ne_zero (o : Obj) (h : OWF o) (h0 : o.size ≠ 0) : o.buf.limbs.getD (o.size.natAbs - 1) junk ≠ 0 := by
+  obtain ⟨hb, _, hfit, hlen, _, hn⟩ := h
+  simp only [view] at hlen hn hfit
+  have hpos : 0 < o.size.natAbs := by omega
+  have hne : o.buf.limbs.take o.size.natAbs ≠ [] := by
+    intro e; rw [e] at hlen; simp at hlen; omega
+  rw [List.getLast?_eq_some_getLast hne] at hn
+  have : (o.buf.limbs.take o.size.natAbs).getLast hne = o.buf.limbs.getD (o.size.natAbs - 1) junk := by
+    rw [List.getLast_eq_getElem]
+    simp only [hlen, List.getElem_take]
+    rw [List.getD_eq_getElem?_getD, List.getElem?_eq_getElem (by rw [hb.1]; omega)]; rfl
+  intro e; apply hn; rw [this, e]
 
 end Mpir.AllocSafe6
